@@ -58,6 +58,12 @@ func basexDecCase(stream, enc string, s []byte) Case {
 		Direct: func() string {
 			e := encByName(enc)
 			d, err := e.DecodeString(string(s))
+			// the string form and the slice form are the same decoder: same verdict, same bytes
+			d1 := make([]byte, e.DecodedLen(len(s))+8)
+			n1, err1 := e.Decode(d1, s)
+			if (err == nil) != (err1 == nil) || (err == nil && string(d) != string(d1[:n1])) {
+				return fmt.Sprintf("basex DecodeString and Decode disagree on the same characters: enc=%s chars=%q DecodeString=(%x, %v) Decode=(%x, %v)", enc, s, d, err, d1[:n1], err1)
+			}
 			if err != nil {
 				return ""
 			}
@@ -72,11 +78,17 @@ func basexDecCase(stream, enc string, s []byte) Case {
 				if strings.HasPrefix(enc, "b58") {
 					al = alpha58
 				}
+				// only the encoding's own skip characters may be dropped; anything else foreign must have been rejected
+				skip := "\t\n\r >"
+				if strings.HasPrefix(enc, "b58") {
+					skip = "\t\n\r !\"#$%&'()*+,-./0:;<=>?@IOl[\\]^_`{|}~"
+				}
 				for _, c := range s {
-					if strings.IndexByte(al, c) >= 0 {
+					if strings.IndexByte(skip, c) < 0 {
 						f = append(f, c)
 					}
 				}
+				_ = al
 				d2, err2 := encByName(strictOf(enc)).DecodeString(string(f))
 				if err2 != nil || string(d2) != string(d) {
 					return fmt.Sprintf("basex skipping decode differs from strict decode of the filtered string: enc=%s chars=%q", enc, s)
@@ -206,6 +218,21 @@ func genBasex(ctx *Ctx, emit func(Case)) {
 				s = t
 			}
 			emit(basexDecCase("basex.dec.multiblock", e.name, s))
+		}
+		// white space and its Unicode relatives at the ENDS only (what a trimming convenience would eat)
+		for k := 0; k < ctx.N(24, 200); k++ {
+			s := e.e.EncodeToString(r.Bytes(prng.Pick(r, 0, 1, e.bl, e.bl+3, 2*e.bl)))
+			ends := []string{" ", "\n", "\t", "\r", "\v", "\f", "\xc2\x85", "\xc2\xa0", "\xe2\x80\x83", ">", "  \n"}
+			pre, post := "", ""
+			switch k % 3 {
+			case 0:
+				pre = ends[r.Intn(len(ends))]
+			case 1:
+				post = ends[r.Intn(len(ends))]
+			default:
+				pre, post = ends[r.Intn(len(ends))], ends[r.Intn(len(ends))]
+			}
+			emit(basexDecCase("basex.dec.ends", e.name, []byte(pre+s+post)))
 		}
 		// --- length helpers -------------------------------------------------------
 		for n := 0; n <= ctx.N(140, 2000); n++ {
